@@ -516,6 +516,15 @@ def expected_outputs(desc, sol):
 
 # --------------------------------------------------------------------------- frequencies
 
+def decay_rate(lam) -> float:
+    """slowest decay rate min|Re λ| of a set of natural frequencies, or 0.0 when some mode is (numerically) undamped:
+    a real part below 1e-9·|λ| is rounding noise of a lossless mode, never a time constant"""
+    lam = np.asarray(lam, dtype=complex)
+    if lam.size == 0: return 0.0
+    top = float(np.max(np.abs(lam)))
+    if top == 0 or np.any(np.abs(lam.real) < 1e-9 * np.maximum(np.abs(lam), 1e-3 * top)): return 0.0
+    return float(np.min(np.abs(lam.real)))
+
 def dyadic_near(x: float) -> Fraction:
     """a dyadic rational within 1/16 relative of x > 0"""
     if x <= 0: return Fraction(0)
@@ -531,7 +540,8 @@ def frequencies(A, quick=True):
         lam = np.linalg.eigvals(np.asarray(A, dtype=float)) if np.size(A) else []
     except Exception:
         lam = []
-    mods = sorted({abs(l) for l in lam if np.isfinite(l) and abs(l) > 0})
+    top = max([abs(l) for l in lam if np.isfinite(l)] + [0.0])
+    mods = sorted({abs(l) for l in lam if np.isfinite(l) and abs(l) > 1e-12 * top and abs(l) > 0})
     if not mods: mods = [1.0]
     picks = [mods[0] / 4, mods[0], mods[-1], mods[-1] * 4] + mods[1:-1]
     for x in picks:
